@@ -18,7 +18,9 @@ type refPacket struct {
 	size    int
 	topic   string
 	alias   int
-	hasProp bool // a property block with at least one property was present
+	hasProp bool   // a property block with at least one property was present
+	payload string // PUBLISH: payload (hex)
+	msgExp  int64  // PUBLISH: Message Expiry Interval carried, -1 if absent
 }
 
 // property id -> wire type: 1 byte, 2 u16, 4 u32, s string, b binary, v varint, p pair
@@ -291,9 +293,12 @@ func refDecodeOne(ver, hb byte, body []byte) (pk refPacket) {
 			si = append(si, fmt.Sprint(v))
 		}
 		me := "0"
+		pk.msgExp = -1
 		if len(p.vals[2]) > 0 {
 			me = "+"
+			pk.msgExp = int64(p.vals[2][0])
 		}
+		pk.payload = hx(rest)
 		pk.topic = topic
 		if len(p.vals[35]) > 0 {
 			pk.alias = int(p.vals[35][0])
